@@ -206,8 +206,60 @@ func machines() []machine {
 		&mach[slice.Seq[int], int]{nm: "slice/int", mn: "lin", tr: slice.Trait[int]("seq.int"), val: id, unval: id, m: lin, encF: encI, il: sliceLayer[int]},
 		&mach[list.Seq[string], string]{nm: "list/string", mn: "cat", tr: list.Trait[string]("seq.string"), val: digit, unval: undigit, m: cat, encF: encCat},
 		&mach[slice.Seq[string], string]{nm: "slice/string", mn: "cat", tr: slice.Trait[string]("seq.string"), val: digit, unval: undigit, m: cat, encF: encCat, il: sliceLayer[string]},
+		// the traits are generic: ints and strings never meet a nil check or a comparison with the zero value.  Elements of
+		// an interface type (the model's 2 is the nil interface, odd values are boxed ints, even ones pointers) and of a pointer
+		// type (the model's 1 is the nil pointer - which is also the Empty of the fold's monoid)
+		&mach[list.Seq[any], any]{nm: "list/any", mn: "lin", tr: list.Trait[any]("seq.any"), val: anyVal, unval: anyUnval, m: linAny, encF: func(a any) any { return anyUnval(a) }},
+		&mach[slice.Seq[any], any]{nm: "slice/any", mn: "lin", tr: slice.Trait[any]("seq.any"), val: anyVal, unval: anyUnval, m: linAny, encF: func(a any) any { return anyUnval(a) }, il: sliceLayer[any]},
+		&mach[list.Seq[*box], *box]{nm: "list/ptr", mn: "lin", tr: list.Trait[*box]("seq.ptr"), val: ptrVal, unval: ptrUnval, m: linPtr, encF: func(a *box) any { return ptrUnval(a) }},
+		&mach[slice.Seq[*box], *box]{nm: "slice/ptr", mn: "lin", tr: slice.Trait[*box]("seq.ptr"), val: ptrVal, unval: ptrUnval, m: linPtr, encF: func(a *box) any { return ptrUnval(a) }, il: sliceLayer[*box]},
 	}
 }
+
+type box struct{ v int }
+
+const anyNil, ptrNil = 2, 1 // the model values that stand for the nil interface / the nil pointer
+
+func anyVal(x int) any {
+	switch {
+	case x == anyNil:
+		return nil
+	case x%2 != 0:
+		return x
+	}
+	return &box{x}
+}
+
+func anyUnval(a any) int {
+	switch t := a.(type) {
+	case nil:
+		return anyNil
+	case int:
+		return t
+	case *box:
+		if t != nil {
+			return t.v
+		}
+	}
+	return -1
+}
+
+func ptrVal(x int) *box {
+	if x == ptrNil {
+		return nil
+	}
+	return &box{x}
+}
+
+func ptrUnval(p *box) int {
+	if p == nil {
+		return ptrNil
+	}
+	return p.v
+}
+
+var linAny = monoid.FromOp(anyVal(1), func(x, y any) any { return anyVal((2*anyUnval(x) + anyUnval(y)) % linMod) })
+var linPtr = monoid.FromOp(ptrVal(1), func(x, y *box) *box { return ptrVal((2*ptrUnval(x) + ptrUnval(y)) % linMod) })
 
 // ---------------------------------------------------------------------------- replay (spec -> impl)
 
